@@ -267,6 +267,10 @@ def ob_prop(skeleton, transform, mode, budget_s=60.0, max_paths=400, annotate=No
                 _bad_rule.__name__ = "bad_rule"
                 processing.fix(_bad_rule)(text)
                 run("zz = 1\nif zz > 7000:\n    print(zz)\n")
+                # ... and enough other texts to evict the entry of `text` from the parse cache (maxsize 100), while
+                # larger caches (trace_origin, compile_template) still remember it
+                for i in range(130):
+                    core.parse("pad_%d = %d\n" % (i, i))
                 out3 = run(text)
             except Exception:  # noqa: BLE001
                 stats["crash"] += 1
@@ -377,6 +381,8 @@ def prop_replay(case):
         core.parse = parse
         try:
             out2 = T(text)
+            for i in range(130):
+                orig("pad_%d = %d\n" % (i, i))
             out3 = T(text)
         finally:
             core.parse = orig
